@@ -65,12 +65,34 @@ func sporkScenario(c *Ctx, id int) {
 		}
 	}()
 	verifier.ReceiverMismatchEnforcementHeight = 0
+	// the community spork key: in a third of the scenarios an account we hold the key of is made the community address and
+	// its window [start, end) is a few momentums wide (both are package variables of the real code, as its own tests use
+	// them); the mainnet window cannot be reached on a test chain
+	origComm, origStart, origEnd := types.CommunitySporkAddress, definition.CommunitySporkAddressStartHeight, definition.CommunitySporkAddressEndHeight
+	defer func() {
+		types.CommunitySporkAddress, definition.CommunitySporkAddressStartHeight, definition.CommunitySporkAddressEndHeight = origComm, origStart, origEnd
+	}()
+	community := id%3 == 1
+	var winA, winB uint64
+	if community {
+		winA = uint64(2 + c.R.Intn(12))
+		winB = winA + uint64(5+c.R.Intn(22))
+		types.CommunitySporkAddress = g.User3.Address
+		definition.CommunitySporkAddressStartHeight, definition.CommunitySporkAddressEndHeight = winA, winB
+		c.Hit("scenario-with-community-key")
+	}
 	n := NewNode()
 	defer n.Stop()
 	c.Emit("S-reset")
+	if community {
+		c.Emit("S-window %d %d", winA, winB)
+	}
 	fail := func(format string, a ...interface{}) {
 		c.Fail("spork run=%d h=%d: %s", id, n.Height(), fmt.Sprintf(format, a...))
 	}
+	abort := false
+	var commCreated []types.Hash // sporks created by the community key (never activated by this scenario unless the window allows it)
+	commN := 0
 
 	sporks := []*sporkRec{
 		{name: "spork-accelerator", bound: types.AcceleratorSpork, tag: "acc"},
@@ -113,6 +135,9 @@ func sporkScenario(c *Ctx, id int) {
 	senderName := func(a types.Address) string {
 		if a == g.Spork.Address {
 			return "sporkKey"
+		}
+		if community && a == types.CommunitySporkAddress {
+			return "community"
 		}
 		return "other"
 	}
@@ -221,6 +246,20 @@ func sporkScenario(c *Ctx, id int) {
 				continue
 			}
 			fh := b.MomentumAcknowledged.Height
+			if community && send.Address == types.CommunitySporkAddress {
+				inside := winA <= fh && fh < winB
+				c.Hit(fmt.Sprintf("community-%s-%s-inside=%v-sendack-inside=%v", m.Name, res, inside, winA <= send.MomentumAcknowledged.Height && send.MomentumAcknowledged.Height < winB))
+				if status == 1 && !inside {
+					fail("C17: the community key's %s call was applied by a receive evaluated against frontier height %d, outside its window [%d,%d) (the send acknowledged height %d)", m.Name, fh, winA, winB, send.MomentumAcknowledged.Height)
+					abort = true
+				}
+				if status != 1 && inside && m.Name == definition.SporkCreateMethodName {
+					fail("C17: the community key's Create call evaluated against frontier height %d inside its window [%d,%d) was refused", fh, winA, winB)
+				}
+				if status == 1 && m.Name == definition.SporkCreateMethodName {
+					commCreated = append(commCreated, send.Hash)
+				}
+			}
 			switch m.Name {
 			case definition.SporkCreateMethodName:
 				c.Emit("S-create %s %d %s | %s", senderName(send.Address), fh, h8(send.Hash), res)
@@ -243,12 +282,59 @@ func sporkScenario(c *Ctx, id int) {
 		}
 		observeHeight(dm.Momentum.Height)
 	}
+	// side traffic of the community key before a momentum: Create calls at any height (harmless: a created spork is never
+	// enforced), Activate calls of its own sporks only where they must be refused (frontier at or past the end of the window,
+	// or well before its start); a third of the calls acknowledge an OLDER momentum — one inside the window when the frontier
+	// is past it — as far as the account's previous block allows
+	communityTraffic := func() {
+		if !community || c.R.Intn(3) == 0 {
+			return
+		}
+		from := types.CommunitySporkAddress
+		h := n.Height()
+		tpl := &nom.AccountBlock{BlockType: nom.BlockTypeUserSend, Address: from, ToAddress: types.SporkContract}
+		past := h >= winB
+		early := h+4 < winA
+		if (past || early) && len(commCreated) > 0 && c.R.Intn(2) == 0 {
+			tpl.Data = definition.ABISpork.PackMethodPanic(definition.SporkActivateMethodName, commCreated[c.R.Intn(len(commCreated))])
+		} else {
+			commN++
+			tpl.Data = definition.ABISpork.PackMethodPanic(definition.SporkCreateMethodName, fmt.Sprintf("comm-spork-%d", commN), "by the community key")
+		}
+		if c.R.Intn(3) != 0 {
+			min := uint64(1)
+			if fr, _ := n.Chain().GetFrontierAccountStore(from).Frontier(); fr != nil {
+				min = fr.MomentumAcknowledged.Height
+			}
+			lo, hi := min, h
+			if past && min < winB {
+				// inside the window if the account chain allows it
+				if lo < winA {
+					lo = winA
+				}
+				hi = winB - 1
+			}
+			if lo <= hi {
+				if m, _ := n.Chain().GetFrontierMomentumStore().GetMomentumByHeight(lo + uint64(c.R.Intn(int(hi-lo+1)))); m != nil {
+					tpl.MomentumAcknowledged = m.Identifier()
+					c.Hit("community-acknowledges-older-momentum")
+				}
+			}
+		}
+		if _, err := n.Submit(tpl); err != nil {
+			c.Hit("community-send-refused")
+		}
+	}
 	mom := func() bool {
+		if abort {
+			return false
+		}
+		communityTraffic()
 		if _, err := n.Momentum(); err != nil {
 			fail("momentum: %v", err)
 			return false
 		}
-		return true
+		return !abort
 	}
 
 	pool := &argPool{addrs: []types.Address{g.User1.Address, g.User2.Address, types.TokenContract}, tokens: []types.ZenonTokenStandard{types.ZnnTokenStandard, types.QsrTokenStandard},
@@ -358,7 +444,12 @@ func sporkScenario(c *Ctx, id int) {
 			}
 			c.Hit("activate-by-wrong-key")
 		}
-		if _, err := sendSpork(g.Spork.Address, definition.ABISpork.PackMethodPanic(definition.SporkActivateMethodName, s.id)); err != nil {
+		activator := g.Spork.Address
+		if community && s.bound != nil && n.Height() >= winA && n.Height()+4 < winB {
+			activator = types.CommunitySporkAddress // well inside its window: the community key acts like the spork key
+			c.Hit("activation-by-community-key")
+		}
+		if _, err := sendSpork(activator, definition.ABISpork.PackMethodPanic(definition.SporkActivateMethodName, s.id)); err != nil {
 			fail("spork activation refused: %v", err)
 			return
 		}
